@@ -325,8 +325,45 @@ def raw_handoff(ctx):
                     'cosigner A signs, hands over raw_hex(), cosigner B imports with transaction_import_raw: 0 signatures arrive, after B signs the 2-of-2 spend has one signature')
 
 
+EXPLICIT = [('wallets:Wallet._get_key', 'cosigner_id'), ('wallets:Wallet.new_keys', 'cosigner_id'), ('wallets:Wallet.keys_for_path', 'cosigner_id')]
+
+
+@PROP.obligation('C10.explicit-cosigner', canaries=[
+    mut.replace_expr('wallets', 'Wallet._get_key', 'cosigner_id is None', 'not cosigner_id', 'cosigner branch 0 treated as not given'),
+    mut.replace_expr('wallets', 'Wallet.keys_for_path', 'cosigner_id if cosigner_id is not None else self.cosigner_id', 'cosigner_id or self.cosigner_id', 'cosigner branch 0 replaced by the own branch'),
+])
+def explicit_cosigner(ctx):
+    """The BIP45 path of a legacy multisig key contains the cosigner index, so every cosigner wallet must derive branch 0 when branch 0
+    is asked for. _get_key, new_keys and keys_for_path are evaluated with cosigner_id=0 on a wallet whose own cosigner id is 2: every
+    query filter, path expansion and key record downstream receives 0; with cosigner_id=None they receive the wallet's own id."""
+    for q, param in EXPLICIT:
+        fn = ctx.repo.func(q)
+        for given, exp in ((0, 0), (1, 1), (None, 2)):
+            it = Interp(ctx.repo, 'wallets', self_cls='wallets:Wallet')
+            st = State()
+            st.heap[('attr', SELF, 'cosigner_id')] = 2
+            st.heap[('attr', SELF, 'scheme')] = 'bip32'
+            st.heap[('attr', SELF, 'multisig')] = True
+            seen = []
+            it.obs_call = lambda name, base, args, kwargs, st_, node, seen=seen: seen.append((name, kwargs[param], node)) if param in kwargs else None
+            try:
+                it.run_function(fn, {'self': S(SELF), param: given}, st=st)
+            except AnalysisError as e:
+                ctx.undecided('%s not evaluable with %s=%s: %s' % (q, param, given, str(e)[:80]))
+            if not seen:
+                ctx.undecided('%s: no downstream use of %s seen' % (q, param))
+            vals = sorted(set(show(term(v))[:30] for _, v, _ in seen))
+            ctx.saw('%s(%s=%s), own id 2: downstream %s receive %s' % (q.split('.')[-1], param, given, sorted(set(n for n, _, _ in seen)), vals))
+            for name, v, node in seen:
+                if v != exp:
+                    ctx.violate(q, '%s=%s is passed on to %s as %s (wallet\'s own cosigner id is 2)' % (param, given, name, show(term(v))[:40]), node,
+                                'legacy (BIP45) cosigner wallets disagree on the keys, redeem script and address of cosigner branch 0')
+                    break
+
+
 @PROP.obligation('C10.send-gate', canaries=[
     mut.replace_expr('wallets', 'WalletTransaction.send', 'not self.verified and (not self.verify())', 'False', 'broadcast without verification'),
+    mut.replace_expr('wallets', 'WalletTransaction.send', 'self.raw_hex()', 'self.rawtx or self.raw_hex()', 'stored serialisation broadcast'),
 ])
 def send_gate(ctx):
     """WalletTransaction.send: the sendrawtransaction call is reachable only through the outcomes `self.verified` true or
@@ -349,6 +386,21 @@ def send_gate(ctx):
     reach = g.reach([g.entry], blocked_edges=blocked)
     ctx.require(sends[0].id not in reach, q, 'the broadcast call is reachable without self.verified / self.verify() being true', sends[0].ast, 'a spend with fewer than m signatures is sent to the network')
     ctx.require(sends[0].id in g.reach([g.entry]), q, 'the broadcast call is unreachable', sends[0].ast)
+    # what is broadcast: a fresh serialisation of the current inputs, never a stored copy
+    from ..dfa import ReachingDefs as _RD
+    rd = _RD(fn, g)
+    call = [c for c in ast.walk(sends[0].ast) if isinstance(c, ast.Call) and isinstance(c.func, ast.Attribute) and c.func.attr == 'sendrawtransaction'][0]
+    if not call.args:
+        ctx.undecided('WalletTransaction.send: sendrawtransaction has no positional argument')
+    lv = rd.leaves(call.args[0], sends[0].id)
+    fresh = [x for x in lv if x[0] == 'call' and x[1] in ('self.raw_hex', 'self.raw')]
+    stored = [x for x in lv if x[0] == 'attr' and x[1].startswith('self.') and x[1] not in ('self.raw_hex', 'self.raw')]
+    ctx.saw('broadcast bytes come from %s' % sorted(str(x) for x in lv if x[0] in ('call', 'attr')))
+    if stored:
+        ctx.violate(q, 'the bytes handed to sendrawtransaction can come from the stored attribute %s instead of a fresh serialisation' % ', '.join(x[1] for x in stored), call,
+                    'a serialisation cached before the last cosigner signed is broadcast: the valid m-signature spend is never sent')
+    elif not fresh:
+        ctx.unsure('%s: origin of the broadcast bytes not recognised: %s' % (q, sorted(map(str, lv))[:4]))
     sg = ctx.repo.func('wallets:WalletTransaction.sign')
     last = [s for s in sg.body if isinstance(s, ast.Expr) and isinstance(s.value, ast.Call) and norm(s.value) == 'self.verify()']
     ctx.require(bool(last), 'wallets:WalletTransaction.sign', 'sign does not re-verify the transaction', sg)
